@@ -269,6 +269,39 @@ theorem history_independent_partial {C : Cfg σ κ ν} {cmp : κ → κ → Orde
   rw [hsame, h2] at h1
   cases h1; rfl
 
+/-! ### interface for tree patching (C14: `ApplyPatches` / `ThreeWayMerge`) -/
+
+/-- What a patcher must deliver at its top level `h` for the patched tree to be canonical: the old
+nodes it walks (`rs`, from whichever source tree it splices them) with
+* `sound`: every node it keeps **unchanged** (a spliced range patch = a whole subtree taken from
+  the other side, or a skipped node of the destination) is *closed* for this level's chunker —
+  fed alone to a reset chunker it reproduces itself AND leaves the chunker reset; only the very
+  last region may be merely *whole* (ended by the final flush of `Done`);
+* `items`: the edited items of the regions, concatenated, are the level-`h` items of the merged
+  content `X'`.
+The known finding `MergeMaps/canonical-shape` violates `sound`: the range patch for the source's
+**last** leaf (a node ended by `Done`'s flush, whole but not closed) is spliced in while the
+destination still has later keys, i.e. not as the last region. -/
+structure PatchLevel (C : Cfg σ κ ν) (h : Nat) (X' : List (κ × ν)) (rs : List (Region (ItemH κ ν h))) : Prop where
+  nonempty : rs ≠ []
+  sound : (C h).Sound rs
+  items : rs.flatMap (·.new) = levelItems C h X'
+
+omit [BEq κ] [BEq ν] [LawfulBEq κ] [LawfulBEq ν] in
+/-- **`patch_canonical_partial`** (corollary interface for C14): a patcher that satisfies
+`PatchLevel` at its top level returns the bulk-built tree of the merged content — on the
+success path, with `SingleOk` and no `append` panic on the merged content, as for
+`mutate_canonical_partial`. -/
+theorem patch_canonical_partial {C : Cfg σ κ ν} (hs : SingleOk C) (X' : List (κ × ν))
+    (hok' : ∀ n, (C n).chunkOk (levelItems C n X') = true)
+    (h : Nat) (rs : List (Region (ItemH κ ν h))) (hp : PatchLevel C h X' rs)
+    (f : Nat) (t1 t2 : Tree κ ν)
+    (h1 : rootOf C f h (((C h).incr (C h).fresh rs).flatMap Out.chunks) = .ok t1)
+    (h2 : build C X' = .ok t2) : t1 = t2 := by
+  rw [(C h).incr_eq_chunk rs hp.nonempty hp.sound, hp.items, ← lvl_eq_chunk] at h1
+  obtain ⟨f0, hf0⟩ := rootOf_to_zero C hs X' hok' h f t1 h1
+  exact rootOf_fuel C _ _ 0 _ t1 t2 hf0 (build_eq_rootOf C X' t2 h2)
+
 end TreeLevel
 
 /-! non-vacuity of `MutHyp` / `mutate_canonical_partial`: a two-level tree over numbers, boundary
@@ -307,6 +340,19 @@ example : MutHyp C compare X es where
   no_overflow n := noOvf n _ _
 
 example : SingleOk C := singleOk_of C (fun _ => rfl) (fun _ _ => Nat.zero_le _)
+
+/-- the hypothesis `PatchLevel.sound` separates exactly the node kind of the C14 finding: the last
+leaf of a tree (ended by the flush of `Done`) is whole but NOT closed, so it may be spliced in
+unchanged only as the last region -/
+example : (C 0).Whole [((5 : Nat), (50 : Nat))] ∧ ¬ (C 0).Closed [((5 : Nat), (50 : Nat))] := by
+  constructor
+  · show (C 0).chunk [((5 : Nat), (50 : Nat))] = [[(5, 50)]]
+    rfl
+  · intro hcl
+    have h1 : (((C 0).feed (C 0).fresh [((5 : Nat), (50 : Nat))]).1 : List (List (Nat × Nat))) = [[(5, 50)]] := by
+      have := congrArg Prod.fst hcl; exact this
+    have h2 : (((C 0).feed (C 0).fresh [((5 : Nat), (50 : Nat))]).1 : List (List (Nat × Nat))) = [] := rfl
+    rw [h2] at h1; cases h1
 
 /-- the edited tree and the bulk-built tree of the edited content, computed -/
 example : (match build C X with
